@@ -41,6 +41,18 @@ Proof.
   split; [exact Ho|]. intro m. rewrite (Heq m).
   rewrite (lookup_filter (fun x => eqb_str x n || below n x) (abs s) m). reflexivity.
 Qed.
+(* corollary: after RemoveAll n neither n nor any name below it has an entry (for every Good state, any present n) *)
+Theorem C12_remove_all_leaves_nothing_of_the_subtree : forall (hr : bool) (c : cfg), plain c -> 0 < c_rs c -> c_readonly c = false ->
+  forall s e n v, Good hr c s -> hb_env e -> good n -> n <> [slash] -> lookup (abs s) n = Some v ->
+  let '(s', o) := step c (with_env s e) (CRemoveAll n) in
+  lookup (abs s') n = None /\ forall m, below n m = true -> lookup (abs s') m = None.
+Proof.
+  intros hr c HP Hrs Hro s e n v HG He Gn Hn Hl.
+  pose proof (C12_remove_all_touches_exactly_the_subtree hr c HP Hrs Hro s e n v HG He Gn Hn Hl) as H.
+  destruct (step c (with_env s e) (CRemoveAll n)) as [s' o]. destruct H as (_ & Heq). split.
+  - rewrite (Heq n), (C01Str.eqb_str_refl n). reflexivity.
+  - intros m Hb. rewrite (Heq m), Hb, orb_true_r. reflexivity.
+Qed.
 (* ... and of a missing name: success, nothing changes *)
 Theorem C12_remove_all_missing_is_noop : forall (hr : bool) (c : cfg), plain c -> 0 < c_rs c -> c_readonly c = false ->
   forall s e n, Good hr c s -> hb_env e -> good n -> n <> [slash] -> lookup (abs s) n = None ->
@@ -78,5 +90,6 @@ Qed.
 
 Print Assumptions C12_children_exact.
 Print Assumptions C12_remove_all_touches_exactly_the_subtree.
+Print Assumptions C12_remove_all_leaves_nothing_of_the_subtree.
 Print Assumptions C12_rename_is_the_reference_move.
 Print Assumptions C12_rename_into_own_subtree_refused.
